@@ -189,6 +189,22 @@ theorem quadRet_neg_iff {a b c : ℝ} (ha : eps ≤ a) :
     · exact h1
     · exact absurd ⟨_, h1, quadRet_root h1⟩ h
 
+/-- a non-negative `x[0]` output is a root (a rejected call writes −1) -/
+theorem quadX0_root {a b c : ℝ} (h : 0 ≤ (ray_quad a b c).2.1) : Q a b c (ray_quad a b c).2.1 = 0 := by
+  by_cases h1 : b * b - a * c < 0 ∨ a < eps
+  · rw [ray_quad_eq, if_pos h1] at h; norm_num at h
+  · rw [ray_quad_eq, if_neg h1]
+    push Not at h1
+    exact Q_root0 (lt_of_lt_of_le eps_pos h1.2).ne' h1.1
+
+/-- a non-negative `x[1]` output is a root -/
+theorem quadX1_root {a b c : ℝ} (h : 0 ≤ (ray_quad a b c).2.2) : Q a b c (ray_quad a b c).2.2 = 0 := by
+  by_cases h1 : b * b - a * c < 0 ∨ a < eps
+  · rw [ray_quad_eq, if_pos h1] at h; norm_num at h
+  · rw [ray_quad_eq, if_neg h1]
+    push Not at h1
+    exact Q_root1 (lt_of_lt_of_le eps_pos h1.2).ne' h1.1
+
 /-- the guard: with `a < mjMINVAL` (degenerate direction) `ray_quad` reports no solution -/
 theorem quadRet_small_a {a b c : ℝ} (ha : a < eps) : ray_quad a b c = (-1, -1, -1) := by
   rw [ray_quad_eq, if_pos (Or.inr ha)]
